@@ -14,6 +14,7 @@
 #include <sys/time.h>
 
 static FILE *g_out;
+static bool g_in_child = false;
 static uint64_t g_run_index, g_run_seed;
 static std::string g_spec, g_mode;
 static bool g_verbose = false;
@@ -38,6 +39,7 @@ static void arm_watchdog(double seconds) {
 static std::string g_refstate = "built"; // state of the object the current varied step is compared with
 static void begin(const char *phase, const std::string &step) {
   arm_watchdog(15.0);
+  if (!g_in_child) death_info_update();
   fprintf(g_out, "{\"begin\":%llu,\"phase\":\"%s\",\"step\":%s,\"refstate\":\"%s\"}\n", (unsigned long long)g_run_index, phase, jstr(step).c_str(), g_refstate.c_str());
   fflush(g_out);
 }
@@ -73,7 +75,6 @@ static void emit(const std::string &verdict, const std::string &cls, const std::
 // write clone of this very process and object); a call that kills the child is recorded (C07
 // material), excluded, and the script is re-run without it.  The parent then issues only calls whose
 // reference execution survived -- a death of the parent on one of those is asymmetric.
-static bool g_in_child = false;
 struct Probe { ScriptRun run; std::vector<char> skip; };
 
 
@@ -87,7 +88,7 @@ static Probe probe_script(StringDictionary *d, const std::vector<Call> &script, 
     fflush(g_out);
     pid_t pid = fork();
     if (pid == 0) {
-      g_in_child = true; g_death_spec = nullptr;
+      g_in_child = true; g_death_spec = nullptr; death_info_update();
       close(dp[0]); close(ep[0]); dup2(ep[1], 2);
       arm_watchdog(1.5);
       ScriptRun r = run_script(d, script, &pr.skip, dp[1], resume);
@@ -155,7 +156,7 @@ static bool probe_save(StringDictionary *d, const std::string &ctx) {
   fflush(g_out);
   pid_t pid = fork();
   if (pid == 0) {
-    g_in_child = true; g_death_spec = nullptr; close(ep[0]); dup2(ep[1], 2);
+    g_in_child = true; g_death_spec = nullptr; death_info_update(); close(ep[0]); dup2(ep[1], 2);
     arm_watchdog(5.0);
     std::ostringstream os(std::ios::out | std::ios::binary); d->save(os);
     _exit(0);
@@ -701,7 +702,7 @@ static bool probe_build(int kind, uint32_t set, int pidx) {
   fflush(g_out);
   pid_t pid = fork();
   if (pid == 0) {
-    g_in_child = true; g_death_spec = nullptr;
+    g_in_child = true; g_death_spec = nullptr; death_info_update();
     int nul = open("/dev/null", O_WRONLY); dup2(nul, 2);
     arm_watchdog(5.0);
     Triple t = make_triple(set, kind, pidx);
